@@ -980,7 +980,15 @@ impl domain::net::server::sock::AsyncDgramSock for DgSock {
 // ------------------------------------------------ client datagram connector
 
 /// A connected client datagram socket that unbinds itself when dropped.
-pub struct ClientDgSock(pub DgSock);
+pub struct ClientDgSock(pub DgSock, pub ClientDgFaults);
+
+/// Faults of one client socket: the next receive fails (as after an ICMP
+/// "port unreachable"), the next send takes fewer octets than it was given.
+#[derive(Default)]
+pub struct ClientDgFaults {
+    pub recv_error: std::sync::atomic::AtomicBool,
+    pub short_send: std::sync::atomic::AtomicBool,
+}
 
 impl Drop for ClientDgSock {
     fn drop(&mut self) {
@@ -990,12 +998,22 @@ impl Drop for ClientDgSock {
 
 impl domain::net::client::protocol::AsyncDgramRecv for ClientDgSock {
     fn poll_recv(&self, cx: &mut Context<'_>, buf: &mut ReadBuf<'_>) -> Poll<io::Result<()>> {
+        if self.1.recv_error.swap(false, std::sync::atomic::Ordering::SeqCst) {
+            sim::stat("fault.dgram_recv_error");
+            ev!("net dgram {} recv() fails (connection refused)", self.0.local);
+            return Poll::Ready(Err(io::Error::new(io::ErrorKind::ConnectionRefused, "simulated ECONNREFUSED")));
+        }
         domain::net::client::protocol::AsyncDgramRecv::poll_recv(&self.0, cx, buf)
     }
 }
 
 impl domain::net::client::protocol::AsyncDgramSend for ClientDgSock {
     fn poll_send(&self, cx: &mut Context<'_>, buf: &[u8]) -> Poll<io::Result<usize>> {
+        if buf.len() > 1 && self.1.short_send.swap(false, std::sync::atomic::Ordering::SeqCst) {
+            sim::stat("fault.dgram_short_send");
+            ev!("net dgram {} send() takes {} of {} octets", self.0.local, buf.len() - 1, buf.len());
+            return Poll::Ready(Ok(buf.len() - 1));
+        }
         domain::net::client::protocol::AsyncDgramSend::poll_send(&self.0, cx, buf)
     }
 }
@@ -1005,6 +1023,8 @@ impl domain::net::client::protocol::AsyncDgramSend for ClientDgSock {
 pub struct DgConnectPlan {
     pub fail_connect: bool,
     pub fail_sends: u32,
+    pub recv_error: bool,
+    pub short_send: bool,
 }
 
 type DgPlanner = Arc<dyn Fn(usize) -> DgConnectPlan + Send + Sync>;
@@ -1061,7 +1081,10 @@ impl domain::net::client::protocol::AsyncConnect for SimDgConnector {
             if plan.fail_sends > 0 {
                 s.fail_next_sends(plan.fail_sends);
             }
-            Ok(ClientDgSock(s))
+            let f = ClientDgFaults::default();
+            f.recv_error.store(plan.recv_error, std::sync::atomic::Ordering::SeqCst);
+            f.short_send.store(plan.short_send, std::sync::atomic::Ordering::SeqCst);
+            Ok(ClientDgSock(s, f))
         };
         Box::pin(std::future::ready(res))
     }
